@@ -20,6 +20,7 @@ import json
 
 CLASSES = [
     ("automata/base/automaton.py", "Automaton"),
+    ("automata/fa/fa.py", "FA"),
     ("automata/fa/dfa.py", "DFA"),
     ("automata/fa/nfa.py", "NFA"),
     ("automata/fa/gnfa.py", "GNFA"),
@@ -98,6 +99,34 @@ def not_in_tuple_literals(fn):
     return []
 
 
+def stmt_shape(st) -> str:
+    """One top-level statement of a validate method, as a short descriptor:
+    `if <const> in self.<attr>: raise <Exc>`, `self.<method>()`, `for`, or the node type."""
+    if isinstance(st, ast.If) and isinstance(st.test, ast.Compare) and len(st.test.ops) == 1 \
+            and isinstance(st.test.ops[0], ast.In) and isinstance(st.test.left, ast.Constant):
+        comp = st.test.comparators[0]
+        if (isinstance(comp, ast.Attribute) and isinstance(comp.value, ast.Name) and comp.value.id == "self"
+                and len(st.body) == 1 and isinstance(st.body[0], ast.Raise) and not st.orelse):
+            return f"if {st.test.left.value!r} in self.{comp.attr}: raise {exc_name(st.body[0].exc)}"
+    if isinstance(st, ast.Expr) and isinstance(st.value, ast.Call) and isinstance(st.value.func, ast.Attribute):
+        v = st.value.func.value
+        if isinstance(v, ast.Name) and v.id == "self":
+            return f"self.{st.value.func.attr}()"
+        if isinstance(v, ast.Call) and isinstance(v.func, ast.Name) and v.func.id == "super":
+            return f"super().{st.value.func.attr}()"
+    if isinstance(st, ast.For):
+        return "for"
+    return type(st).__name__
+
+
+def body_shape(fn):
+    body = list(fn.body)
+    if body and isinstance(body[0], ast.Expr) and isinstance(body[0].value, ast.Constant) \
+            and isinstance(body[0].value.value, str):
+        body = body[1:]  # docstring
+    return [stmt_shape(st) for st in body]
+
+
 def super_init_kwargs(cnode):
     """keyword names passed to super().__init__(…) / super(X, self).__init__(…) in __init__."""
     for fn in methods(cnode):
@@ -165,6 +194,23 @@ def gen_validate_lits(parse) -> str:
                            "_validate_transition_invalid_symbols", "__post_init__"):
                 name = cls if fn.name == "validate" else f"{cls}.{fn.name}"
                 rows.append(f"  ({lean_str(name)}, {lean_list(self_calls_of(fn))})")
+    out.append(",\n".join(rows))
+    out.append("]")
+    out.append("")
+    out.append("/-- top-level statements, in source order, of the methods that check the reserved names")
+    out.append("(`None` as a state name, the empty string as an input / stack symbol) and of the")
+    out.append("`validate` methods that call them. -/")
+    out.append("def reservedNameChecks : List (String × List String) := [")
+    rows = []
+    for cls, meth in (("FA", "_validate_reserved_names"), ("DFA", "validate"), ("NFA", "validate"),
+                      ("PDA", "validate")):
+        shape = None
+        if nodes.get(cls) is not None:
+            for fn in methods(nodes[cls]):
+                if fn.name == meth:
+                    shape = body_shape(fn)
+        if shape is not None:
+            rows.append(f"  ({lean_str(cls + '.' + meth)}, {lean_list(shape)})")
     out.append(",\n".join(rows))
     out.append("]")
     out.append("")
